@@ -2,14 +2,14 @@ CONSTANTS
   Setup = "hot"
   NW = 2
   SyncCap = 1
-  MaxTicks = 1
+  MaxTicks = 2
   MaxJPolls = 1
   MaxWakes = 1
   JCmds = {}
   HCmds = {"tick", "clear", "execdrop"}
   Spurious = TRUE
-  Strict = TRUE
-  Fix = {"D10b"}
+  Strict = FALSE
+  Fix = {}
 SPECIFICATION Spec
 INVARIANTS NoErr HomeOnly ExactlyOnce NoWakerLeak RcMatches NoLostJoinWake PendingBound ScntOk
 
